@@ -12,10 +12,12 @@ S5 == [i \in 0..4 |-> 1]
 
 Shown(n) == ns[n].stored \cup {p.blk : p \in ns[n].parked} \cup {p.blk : p \in ns[n].loopQ} \cup {p.blk : p \in ns[n].pwait}
 Cert(S) == {Par(x) : x \in S}
-EnvSafe(S) == LET C == Cert(S) IN
+\* C = the blocks the environment has certified in front of the node
+EnvSafeC(C) ==
    /\ \A c, d \in C : Rnd(c) = Rnd(d) => c = d
    /\ \A b1 \in C : (b1 # Genesis /\ Par(b1) # Genesis /\ Rnd(b1) = Rnd(Par(b1)) + 1) =>
          \A c \in C : Rnd(c) >= Rnd(Par(b1)) => Ancestor(Par(b1), c)
+EnvSafe(S) == EnvSafeC(Cert(S))
 
 EnvProposal(p) ==
    /\ p \in Deliverable(Me)
@@ -23,8 +25,9 @@ EnvProposal(p) ==
    /\ (p.tc = NoTC \/ p.tc.round + 1 = Rnd(p.blk))
    /\ (UseEnvSafe => EnvSafe(Shown(Me) \cup {p.blk}))
    /\ RecvProposal(Me, p, TRUE)
-EnvVote(v)    == UseVotes /\ v.author # Me /\ RecvVote(Me, v)
-EnvTimeout(t) == UseTimeouts /\ t.author \in Byz /\ Rnd(t.hq) < t.round /\ RecvTimeout(Me, t)
+\* under EnvSafe a vote (a step towards a QC) and a timeout's high QC are certificates of the environment as well
+EnvVote(v)    == UseVotes /\ v.author # Me /\ (UseEnvSafe => EnvSafeC(Cert(Shown(Me)) \cup {v.blk})) /\ RecvVote(Me, v)
+EnvTimeout(t) == UseTimeouts /\ t.author \in Byz /\ Rnd(t.hq) < t.round /\ (UseEnvSafe => EnvSafeC(Cert(Shown(Me)) \cup {t.hq})) /\ RecvTimeout(Me, t)
 EnvTC(tc)     == RecvTC(Me, tc)
 TimerFire     == Timer(Me)
 Internal ==
